@@ -94,7 +94,7 @@ class Gen(G.Gen):
         c = sc.contract
         if c is None:
             return ["lit", self.lit()]
-        if r.random() < 0.78 or sc.depth >= self.k.max_depth:
+        if r.random() < 0.68 or sc.depth >= self.k.max_depth:
             return ["caller", 0, [self.expr(sc, depth + 1, True) for _ in range(c["body_arity"])]]
         wants = c["wants"]
         if wants and (len(wants) >= 2 or r.random() < 0.5):
